@@ -16,7 +16,7 @@ var FaultOps = []string{
 	"bad-date", "text-after-headline", "bad-should-total", "indented-headline",
 	"rsum-leading-blank", "entry-indent-1", "entry-indent-plus-1", "indent-style-switch",
 	"unindented-entry", "bad-time", "bad-duration", "range-missing-end", "range-bad-dash",
-	"range-glued-garbage", "reversed-range", "shifted-placeholder", "second-open-range",
+	"range-glued-garbage", "reversed-range", "shifted-placeholder", "second-open-range", "range-turned-open",
 	"blank-line-inside-record", "stray-prose-block", "blank-only-continuation", "double-indent-first",
 }
 
@@ -287,7 +287,52 @@ func ApplyFault(d Doc, l Layout, lines []LineInfo, f Fault) ([]LineInfo, int, bo
 		for k := 0; k < n; k++ {
 			out = insertAt(out, at+k, ind+sel([]string{"9:00 - ?", "9:00-?", "<23:00 - ???", "1:00pm - ? again"}, f.Var+k))
 		}
-		return out, at + n - 1, true
+		manifest := at + n - 1
+		if f.Var%3 == 2 {
+			// the duplicate carries a multi-line summary
+			out = insertAt(out, at+n, ind+ind+"more text")
+			if f.Var%2 == 0 {
+				out = insertAt(out, at+n+1, ind+ind+"and more")
+			}
+		}
+		return out, manifest, true
+	case "range-turned-open":
+		// turn a range into an open range in a record that then has two open ranges; the entry keeps
+		// its (possibly multi-line) summary
+		type cand struct{ line, manifest int }
+		var cs []cand
+		for i, li := range lines {
+			if li.Role != RoleEntry || entryAt(li).Kind != KRange {
+				continue
+			}
+			r := d.Records[li.Rec]
+			oi := r.OpenIndex()
+			if oi < 0 {
+				continue
+			}
+			// line of the existing open range
+			openLine := -1
+			for j, lj := range lines {
+				if lj.Role == RoleEntry && lj.Rec == li.Rec && lj.Entry == oi {
+					openLine = j
+				}
+			}
+			if openLine < 0 {
+				continue
+			}
+			m := i
+			if openLine > i {
+				m = openLine
+			}
+			cs = append(cs, cand{i, m})
+		}
+		if len(cs) == 0 {
+			return nil, 0, false
+		}
+		c := sel(cs, f.Sel)
+		e := entryAt(lines[c.line])
+		v := e.Start.Lit + e.DashL + "-" + e.DashR + sel([]string{"?", "??", "?????"}, f.Var)
+		return replaceValue(c.line, v), c.manifest, true
 	case "blank-line-inside-record":
 		c := indices(lines, func(_ int, li LineInfo) bool { return li.Role == RoleEntry || li.Role == RoleECont })
 		if len(c) == 0 {
